@@ -7,6 +7,7 @@
 package packet
 
 import (
+	"bytes"
 	"io"
 
 	"github.com/Comcast/gots/v2"
@@ -36,6 +37,9 @@ func verifFresh(x interface{}) bool { return true }
 
 // verifSeparate(a, b): a and b are different memory objects (decided symbolically only).
 func verifSeparate(a, b interface{}) bool { return true }
+
+// verifBufOK(b): bytes.Buffer's own invariant 0 <= off <= len(buf) (decided symbolically only).
+func verifBufOK(b interface{}) bool { return true }
 
 // verifSnap returns an independent copy of b (used under old(...)).
 func verifSnap(b []byte) []byte {
@@ -1168,5 +1172,71 @@ func specPlausible(s []byte, k int) bool {
 //@     invariant specScannerOf(r).pos == old(specScannerOf(r).pos)+int(off)
 //@     invariant forall k in old(specScannerOf(r).pos)..specScannerOf(r).pos :: !specPlausible(specScannerOf(r).s, k)
 //@     decreases len(specScannerOf(r).s) - specScannerOf(r).pos
+
+// ---------------------------------------------------------------- C17: payload accumulator
+
+//@ purefield accumulator.f
+
+func accOf(x Accumulator) *accumulator {
+	p, _ := x.(*accumulator)
+	return p
+}
+
+// specAccOK: representation invariant of the accumulator.
+func specAccOK(a *accumulator) bool {
+	return a != nil && a.buf != nil && 0 <= a.state && a.state <= 2 && specBufOK(a.buf)
+}
+
+// specBufOK: what bytes.Buffer maintains: the read offset lies inside the contents.
+func specBufOK(b *bytes.Buffer) bool { return verifBufOK(b) }
+
+// specAccBytes: the accumulated bytes (a view; contracts snapshot it under old()).
+func specAccBytes(a *accumulator) []byte { return a.buf.Bytes() }
+
+// specPayloadLen / specPayloadAt: the payload of a packet that has one.
+func specPayloadLen(p *Packet) int { return 188 - specHdrLen(p) }
+
+// specAccepts: the call adds the packet (state starting with unit start, or accumulating).
+func specAccepts(state int, p *Packet) bool {
+	return (state == 0 && specPUSI(p)) || state == 1
+}
+
+// specBytesAre(nb, base, n, p): nb == base[:n] ++ payload(p)
+func specBytesAre(nb []byte, base []byte, n int, p *Packet) bool {
+	return len(nb) == n+specPayloadLen(p) &&
+		verifForall(0, n, func(k int) bool { return nb[k] == base[k] }) &&
+		verifForall(0, 188, func(j int) bool { return j < specHdrLen(p) || nb[n+j-specHdrLen(p)] == p[j] })
+}
+
+//@ func NewAccumulator(f func(data []byte) (done bool, err error)) Accumulator
+//@   props C17
+//@   ensures specAccOK(accOf(result)) && fresh(accOf(result)) && accOf(result).state == 0 && len(accOf(result).packets) == 0 && len(specAccBytes(accOf(result))) == 0
+//@   modifies nothing
+
+//@ func (a *accumulator) WritePacket(pkt *Packet) (n int, err error)
+//@   props C17
+//@   requires specAccOK(a) && pkt != nil && specHdrLen(pkt) <= 188
+//@   ensures specAccOK(a)
+//@   ensures old(a.state) == 2 ==> n == 0 && err == gots.ErrAccumulatorDone && a.state == 2 && len(a.packets) == old(len(a.packets)) && len(specAccBytes(a)) == old(len(specAccBytes(a)))
+//@   ensures old(a.state) == 0 && !specPUSI(pkt) ==> n == 188 && err == gots.ErrNoPayloadUnitStartIndicator && a.state == 0 && len(a.packets) == old(len(a.packets)) && len(specAccBytes(a)) == old(len(specAccBytes(a)))
+//@   ensures specAccepts(old(a.state), pkt) && specAFC(pkt)%2 == 1 && specPUSI(pkt) ==> n == 188 && specBytesAre(specAccBytes(a), old(verifSnap(specAccBytes(a))), 0, pkt)
+//@   ensures specAccepts(old(a.state), pkt) && specAFC(pkt)%2 == 1 && !specPUSI(pkt) ==> n == 188 && specBytesAre(specAccBytes(a), old(verifSnap(specAccBytes(a))), old(len(specAccBytes(a))), pkt)
+//@   ensures specAccepts(old(a.state), pkt) && specAFC(pkt)%2 == 1 && specPUSI(pkt) ==> len(a.packets) == 1 && fresh(a.packets[0]) && Equal(a.packets[0], pkt)
+//@   ensures specAccepts(old(a.state), pkt) && specAFC(pkt)%2 == 1 && !specPUSI(pkt) ==> len(a.packets) == old(len(a.packets))+1 && fresh(a.packets[len(a.packets)-1]) && Equal(a.packets[len(a.packets)-1], pkt)
+//@   ensures specAccepts(old(a.state), pkt) && specAFC(pkt)%2 == 0 ==> n == 188 && err == gots.ErrNoPayload && (specPUSI(pkt) ==> len(specAccBytes(a)) == 0) && (!specPUSI(pkt) ==> len(specAccBytes(a)) == old(len(specAccBytes(a))))
+//@   ensures forall j in 0..188 :: pkt[j] == old(*pkt)[j]
+//@   modifies *a, *a.buf, a.packets[..]
+
+//@ func (a *accumulator) Bytes() []byte
+//@   props C17
+//@   requires specAccOK(a)
+//@   ensures fresh(result) && len(result) == len(specAccBytes(a)) && forall k in 0..len(result) :: result[k] == specAccBytes(a)[k]
+//@   modifies nothing
+
+//@ func (a *accumulator) Reset()
+//@   props C17
+//@   requires specAccOK(a)
+//@   ensures specAccOK(a) && a.state == 0 && len(a.packets) == 0 && len(specAccBytes(a)) == 0
+//@   modifies *a, *a.buf
 
 var _ = gots.ErrNoPayload
